@@ -181,6 +181,8 @@ type stmtFixture struct {
 	be     *stmtBackend
 	logDir string
 	pipes  map[*SessionExecutor]*stmtSinkConn
+
+	panicked string // panic value of the last send ("" = none)
 }
 
 // send delivers one command the way a client does and the way Session.Run serves it: the framed packet is queued on the
@@ -202,7 +204,18 @@ func (f *stmtFixture) send(se *SessionExecutor, cmd byte, payload []byte) Respon
 	if err != nil || len(data) == 0 {
 		panic(fmt.Sprintf("verif: the proxy's packet reader failed on a harness packet: %v", err))
 	}
-	rs := s.execCommand(data[0], data[1:])
+	// a panic in the handler is an observation (Session.Run recovers it and drops the connection), not a harness crash
+	var rs Response
+	f.panicked = ""
+	func() {
+		defer func() {
+			if r := recover(); r != nil {
+				f.panicked = fmt.Sprint(r)
+				rs = CreateErrorResponse(se.status, fmt.Errorf("verif: the session panicked: %v", r))
+			}
+		}()
+		rs = s.execCommand(data[0], data[1:])
+	}()
 	for i := range data {
 		data[i] = 0xEE
 	}
